@@ -1,8 +1,14 @@
 package sim
 
 import (
-	"cosmossdk.io/collections"
 	"crypto/sha256"
+
+	"cosmossdk.io/collections"
+	"cosmossdk.io/math"
+
+	"github.com/ethereum/go-ethereum/common"
+	ethcrypto "github.com/ethereum/go-ethereum/crypto"
+	reportertypes "github.com/tellor-io/layer/x/reporter/types"
 
 	sdk "github.com/cosmos/cosmos-sdk/types"
 )
@@ -14,4 +20,104 @@ func collJoinReport(queryId []byte, reporter sdk.AccAddress, height uint64) coll
 func sha256sum(b []byte) []byte {
 	h := sha256.Sum256(b)
 	return h[:]
+}
+
+// ---- lookups the monitors do themselves, reading the collections directly, so that a defect in one of the keeper's
+// lookup functions cannot make monitor and chain agree (seeded change C14-f did exactly that) ----
+
+// ownEVMAddressFromSignatures: the one address that both initial bridge signatures recover to (either recovery id).
+func ownEVMAddressFromSignatures(sigA, sigB []byte) (common.Address, bool) {
+	rec := func(sig []byte, msg string) map[common.Address]bool {
+		out := map[common.Address]bool{}
+		if len(sig) < 64 {
+			return out
+		}
+		h1 := sha256.Sum256([]byte(msg))
+		h2 := sha256.Sum256(h1[:]) // the keyring signer hashes once more
+		for _, id := range []byte{0, 1} {
+			s := append(append([]byte{}, sig[:64]...), id)
+			if pk, err := ethcrypto.SigToPub(h2[:], s); err == nil {
+				out[ethcrypto.PubkeyToAddress(*pk)] = true
+			}
+		}
+		return out
+	}
+	a, b := rec(sigA, "TellorLayer: Initial bridge signature A"), rec(sigB, "TellorLayer: Initial bridge signature B")
+	var common1 []common.Address
+	for x := range a {
+		if b[x] {
+			common1 = append(common1, x)
+		}
+	}
+	if len(common1) != 1 {
+		return common.Address{}, false
+	}
+	return common1[0], true
+}
+
+// ownTipsAtBlock: the tipper's running total recorded at the greatest height <= block.
+func ownTipsAtBlock(c *Chain, ctx sdk.Context, tipper sdk.AccAddress, block uint64) math.Int {
+	out := math.ZeroInt()
+	_ = c.App.OracleKeeper.TipperTotal.Walk(ctx, collections.NewPrefixedPairRange[[]byte, uint64](tipper.Bytes()), func(k collections.Pair[[]byte, uint64], v math.Int) (bool, error) {
+		if string(k.K1()) == string(tipper.Bytes()) && k.K2() <= block {
+			out = v // ascending heights: the last one at or below the block stays
+		}
+		return false, nil
+	})
+	return out
+}
+
+// ownSnapshotAt: the reporter's stake snapshot with the greatest height <= block (several snapshots at that height with
+// different totals: ambiguous).
+func ownSnapshotAt(c *Chain, ctx sdk.Context, reporter []byte, block uint64) (snap reportertypes.DelegationsAmounts, found, ambiguous bool) {
+	it, err := c.App.ReporterKeeper.Report.Iterate(ctx, nil)
+	if err != nil {
+		return
+	}
+	defer it.Close()
+	best := uint64(0)
+	for ; it.Valid(); it.Next() {
+		k, err := it.Key()
+		if err != nil {
+			continue
+		}
+		if string(k.K2().K1()) != string(reporter) || k.K2().K2() > block {
+			continue
+		}
+		h := k.K2().K2()
+		if found && h < best {
+			continue
+		}
+		v, err := it.Value()
+		if err != nil {
+			continue
+		}
+		if found && h == best {
+			if !v.Total.Equal(snap.Total) {
+				ambiguous = true
+			}
+			continue
+		}
+		snap, found, best, ambiguous = v, true, h, false
+	}
+	return
+}
+
+// ownDelegatorTokensAt: what the delegator contributed to the snapshot of the reporter it has selected now.
+func ownDelegatorTokensAt(c *Chain, ctx sdk.Context, delegator []byte, block uint64) (amt math.Int, ok, ambiguous bool) {
+	sel, err := c.App.ReporterKeeper.Selectors.Get(ctx, delegator)
+	if err != nil {
+		return math.ZeroInt(), false, false
+	}
+	snap, found, amb := ownSnapshotAt(c, ctx, sel.Reporter, block)
+	amt = math.ZeroInt()
+	if !found {
+		return amt, false, false
+	}
+	for _, o := range snap.TokenOrigins {
+		if string(o.DelegatorAddress) == string(delegator) {
+			amt = amt.Add(o.Amount)
+		}
+	}
+	return amt, true, amb
 }
